@@ -82,12 +82,31 @@ func init() {
 		}
 		return -1
 	})
+	l("strings.Contains", func(fr *frame, a []value) value {
+		s, ok1 := a[0].(string)
+		sub, ok2 := a[1].(string)
+		if ok1 && ok2 {
+			checkLazy(s)
+			return strings.Contains(s, sub)
+		}
+		sb, nb := strBytes(a[0]), strBytes(a[1])
+		r := tFalse
+		for i := 0; i+len(nb) <= len(sb); i++ {
+			r = mkOr(r, bytesEqTerm(sb[i:i+len(nb)], nb))
+		}
+		return boolVal(r)
+	})
 	l("strings.Compare", func(fr *frame, a []value) value { return intVal(bytesCmpTerm(strBytes(a[0]), strBytes(a[1]))) })
 	l("strconv.ParseInt", inParseInt)
 	l("strconv.ParseFloat", inParseFloat)
 	l("strconv.Itoa", func(fr *frame, a []value) value { return sprintf("%d", []value{iface{types.Typ[types.Int], a[0]}}) })
 	l("strconv.FormatFloat", func(fr *frame, a []value) value {
 		f, ok1 := a[0].(float64)
+		if t, isTerm := a[0].(*Term); isTerm && t.sort == SFP64 {
+			// a symbolic float that is rendered: enumerate its values (each a fork); they come
+			// from small value sets wherever the harnesses let a float reach a rendering
+			f, ok1 = math.Float64frombits(I.x.concretize(t, "FormatFloat")), true
+		}
 		fmtc, ok2 := a[1].(uint8)
 		prec, ok3 := a[2].(int)
 		bits, ok4 := a[3].(int)
